@@ -348,7 +348,29 @@ func (f *Frame) directComps(a ssa.Value) []string {
 	return nil
 }
 
+// doCall executes a call and records its results under its site selectors so
+// that contracts can refer to them as res("<selector>#k", i).
 func (f *Frame) doCall(ci ssa.CallInstruction, st *State, reach Term) []Term {
+	out := f.doCallInner(ci, st, reach)
+	if f.callRes == nil {
+		f.callRes = map[string][]Val{}
+	}
+	results := ci.Common().Signature().Results()
+	var vals []Val
+	for i, t := range out {
+		var gt types.Type
+		if i < results.Len() {
+			gt = results.At(i).Type()
+		}
+		vals = append(vals, Val{T: t, GT: gt})
+	}
+	for sel, k := range f.siteOrd[ci] {
+		f.callRes[fmt.Sprintf("%s#%d", sel, k)] = vals
+	}
+	return out
+}
+
+func (f *Frame) doCallInner(ci ssa.CallInstruction, st *State, reach Term) []Term {
 	c := f.c
 	cm := ci.Common()
 	p := f.resolve(ci)
@@ -845,6 +867,10 @@ func (f *Frame) applyContract(p callPlan, args []Val, st *State, reach Term, whe
 	post := f.calleeEnv(p, args, st, pre)
 	bindResultNames(post, fc, results, res)
 	for _, en := range fc.Ensures {
+		if strings.Contains(en.Src, "res(") {
+			// internal postcondition over the callee's own call results: not visible to callers
+			continue
+		}
 		t, err := post.evalBool(en.E)
 		if err != nil {
 			c.oblige("error", fmt.Sprintf("%s#call:%s:%s", shortFn(f.fn), short, en.Name), reach, tFalse, "contract error: "+err.Error())
